@@ -263,6 +263,8 @@ def specs(tier, seed, carve):
     out = [dict(id="reader_survives/state%d" % st, fn="reader_survives", params={"st": st}, timeout=900,
                 bound="connection state %d: one decoded message of 18 kinds (typed/untyped requests and answers, incl. repeated Origin-Host) x 5 defect classes x handler raises/returns" % st)
            for st in range(7)]
+    out.append(dict(id="second_conn_survives", fn="second_conn_survives", params={}, timeout=300,
+                    bound="one peer with two established connections (second READY or awaiting a DWA); either is lost by EOF / read error / node-initiated close; then a request on the other"))
     for kind in RACES:
       for slots in (1, 2):
         ms = RACE_STEPS[kind]
@@ -335,6 +337,47 @@ def race(sched: List[int], tgt: List[int]) -> bool:
     except Exception as e:
         why = "harness: %s: %s" % (type(e).__name__, str(e)[:100])
     return hx.check(inputs, (why,), ("",), "a thread died or the node is not as good as new after the connection was lost during the handshake")
+
+
+def second_conn_survives(loss: int, which: int, st2: int) -> bool:
+    """
+    pre: 0 <= loss <= 2 and 0 <= which <= 1 and 0 <= st2 <= 1
+    post: _
+    """
+    hx.begin()
+    ls, wh, s2 = hx.concretize_range(loss, 0, 3), hx.concretize_range(which, 0, 2), hx.concretize_range(st2, 0, 2)
+    inputs = (loss, which, st2)
+    why = ""
+    try:
+        # one peer, two established connections (the second accepted while the first is registered); one of them is lost by
+        # EOF / read error / a node-initiated close: the connection thread must survive (no lock taken twice, no exception)
+        # and the other connection keeps being served
+        h = H.Hist(init="ready_inbound", persistent=False)
+        n, app = h.n, h.app
+        first = h.newest()
+        h.ev_accept()
+        h.ev_cer(PEER, [4])
+        second = h.newest()
+        if s2:
+            n.send_dwr(second)
+            h.settle()
+        victim, other = (first, second) if wh == 0 else (second, first)
+        if ls == 0:
+            h.ev_gone(victim)
+        elif ls == 1:
+            h.ev_err(victim)
+        else:
+            n.close_connection_socket(victim, B.DISCONNECT_REASON_UNKNOWN)
+            h.settle()
+        before = len(app.requests)
+        h._push(other, B.ccr(PEER, 9100, 9100).as_bytes())
+        if len(app.requests) != before + 1:
+            why = "the surviving connection is no longer served"
+        elif other.ident not in n.connections:
+            why = "the surviving connection was dropped"
+    except Exception as e:
+        why = "connection thread / worker ended by %s: %s" % (type(e).__name__, str(e)[:80])
+    return hx.check(inputs, (why,), ("",), "losing one of a peer's two connections must not stop the node serving the other")
 
 
 def _probe_simple(b):
